@@ -86,6 +86,14 @@ func (m *Machine) resetPath(prefix []int) {
 	m.poolFree = map[*Value][]Value{}
 	m.dumpCache = nil
 	m.globals = map[*ssa.Global]*Value{}
+	if m.ex.initState != nil {
+		// a private copy of the state the repository's package initialisers left behind
+		c := newCloner()
+		for g, p := range m.ex.initState {
+			m.globals[g] = c.val(p).(*Value)
+		}
+		return
+	}
 	for _, g := range m.ex.repoGlobals {
 		v := zero(g.Type().Underlying().(*types.Pointer).Elem())
 		m.globals[g] = &v
